@@ -9,13 +9,20 @@ import cases as C  # noqa
 
 U = 2.0 ** -24
 
-FLOAT_TAGS = {"out", "coeff", "ruler", "parts", "off", "proj", "wake", "spec", "pad", "vals"}
+FLOAT_TAGS = {"out", "coeff", "ruler", "parts", "off", "proj", "wake", "wpad", "spec", "pow", "pad", "vals"}
+# compared against a binary64 naive-DFT model: FFT rounding of the float implementation
+LOOSE_TAGS = {"wake", "wpad", "spec", "pow"}
 EXACT_TAGS = {"undefined", "error", "ints", "sched", "txt"}
 
 
-def fclose(a, b, linescale):
+def fclose(a, b, linescale, loose=False):
     if a == b:
         return True
+    if loose:
+        fa, fb = h2f(a), h2f(b)
+        if math.isnan(fa) or math.isnan(fb) or math.isinf(fa) or math.isinf(fb):
+            return (math.isnan(fa) and math.isnan(fb)) or fa == fb
+        return abs(fa - fb) <= 2e-5 * linescale + 1e-5 * max(abs(fa), abs(fb))
     fa, fb = h2f(a), h2f(b)
     if math.isnan(fa) and math.isnan(fb):
         return True
@@ -57,7 +64,7 @@ def compare_line(x, y):
     drift = 0
     for i in fpos:
         if xs[i] != ys[i]:
-            if fclose(xs[i], ys[i], scale):
+            if fclose(xs[i], ys[i], scale, tag in LOOSE_TAGS):
                 drift += 1
             else:
                 return False, drift, "%s value token %d: impl %s (%g) model %s (%g)" % (
